@@ -584,11 +584,11 @@ pub fn scenarios(prop: &str, tier: Tier) -> Vec<Item> {
                 let mut p = ip(Box::leak(format!("close_{}", mname).into_boxed_str()), prop, mode);
                 p.deliverers = vec![vec![S1]];
                 p.free_closers = 1;
-                v.push(item(build::<SignalOnly>(p), b(2, 3), "close() at any instant vs the consumer's checks, reads and scans, with one delivery"));
+                v.push(item(build::<SignalOnly>(p), b(2, 4), "close() at any instant vs the consumer's checks, reads and scans, with one delivery"));
             }
             let mut p = ip("close_twice_poll", prop, Mode::Poll);
             p.free_closers = 2;
-            v.push(item(build::<SignalOnly>(p), b(2, 3), "two handle clones closing concurrently vs an async-style poller"));
+            v.push(item(build::<SignalOnly>(p), b(2, 4), "two handle clones closing concurrently vs an async-style poller"));
             let mut p = ip("close_raw_forever", prop, Mode::Forever);
             p.deliverers = vec![vec![S1, S1]];
             p.free_closers = 1;
